@@ -145,3 +145,92 @@ Proof.
 Qed.
 
 End SumModesP.
+
+(* ---- dot(a, b, axis): b embedded into the shape of a (identity cores on the modes that are not contracted) ---- *)
+Section DotAxisP.
+Context {R : Type} {RO : RingOps R} {RL : RingLaws R}.
+Add Ring Rr16 : Rth.
+Open Scope R_scope.
+Arguments chainM : simpl never.
+
+Lemma conj_core_slices (b : tt R) : forall idx, slices (map conj_core b) idx = conjL (slices b idx).
+Proof. induction b as [|c bt IH]; intros [|i it]; simpl; auto. rewrite IH. reflexivity. Qed.
+
+Lemma take_pos_length {A B} (l : list A) (l' : list B) : forall i axis, length l = length l' ->
+  length (take_pos i l axis) = length (take_pos i l' axis).
+Proof.
+  revert l'. induction l as [|a t IH]; intros [|b t'] i axis H; simpl in H; try discriminate; [reflexivity|].
+  cbn [take_pos]. rewrite !app_length. rewrite (IH t' (S i) axis) by lia. destruct (memb i axis); reflexivity.
+Qed.
+
+Lemma embed_chain ns : forall i (b : tt R) axis rl idx p q,
+  length idx = length ns -> chained rl b -> length b = length (take_pos i ns axis) -> (p < rl)%nat ->
+  chainM (slices (embed i ns b axis rl) idx) p q = chainM (conjL (slices b (take_pos i idx axis))) p q.
+Proof.
+  induction ns as [|n nt IH]; intros i b axis rl [|j jt] p q Hl Hc Hb Hp; simpl in Hl; try discriminate.
+  - simpl in Hb. destruct b; [reflexivity|discriminate].
+  - cbn [embed take_pos] in *. destruct (memb i axis) eqn:Em.
+    + destruct b as [|c bt]; [simpl in Hb; discriminate|]. simpl in Hc. destruct Hc as [E0 Hc].
+      cbn [app slices conjL map fst snd]. rewrite !chainM_cons. cbn [r1 conj_core e3 fst snd].
+      apply sum_n_ext. intros a Ha. f_equal.
+      apply IH; auto; simpl in Hb; lia.
+    + cbn [app] in *. cbn [slices]. rewrite chainM_cons. cbn [r1 e3].
+      set (rr := if memb (S i) axis then match b with c :: _ => r0 c | [] => rl end else rl).
+      assert (Hrr : rr = rl).
+      { unfold rr. destruct (memb (S i) axis); [|reflexivity]. destruct b as [|c bt]; [reflexivity|]. simpl in Hc. tauto. }
+      rewrite Hrr. change (sum_n rl (fun l => delta p l * chainM (slices (embed (S i) nt b axis rl) jt) l q))
+        with (mmul rl Id (chainM (slices (embed (S i) nt b axis rl) jt)) p q).
+      rewrite mmul_Id_l by assumption. apply IH; auto.
+Qed.
+
+Lemma embed_chained ns : forall i (b : tt R) axis rl, chained rl b -> length b = length (take_pos i ns axis) ->
+  chained rl (embed i ns b axis rl ++ []) /\ True.
+Proof. intros. split; [|exact I]. rewrite app_nil_r. revert i b axis rl H H0.
+  induction ns as [|n nt IH]; intros i b axis rl Hc Hb; cbn [embed take_pos] in *.
+  - simpl in Hb. destruct b; [exact Hc|discriminate].
+  - destruct (memb i axis) eqn:Em.
+    + destruct b as [|c bt]; [simpl in Hb; discriminate|]. simpl in Hc. destruct Hc as [E0 Hc].
+      cbn [chained r0 r1 conj_core]. split; [exact E0|]. apply IH; auto; simpl in Hb; lia.
+    + cbn [app] in Hb. cbn [chained r0 r1]. split; [reflexivity|].
+      assert (Hrr : (if memb (S i) axis then match b with c :: _ => r0 c | [] => rl end else rl) = rl).
+      { destruct (memb (S i) axis); [|reflexivity]. destruct b as [|c bt]; [reflexivity|]. simpl in Hc. tauto. }
+      rewrite Hrr. apply IH; auto.
+Qed.
+Lemma embed_length ns : forall i (b : tt R) axis rl, length b = length (take_pos i ns axis) -> length (embed i ns b axis rl) = length ns.
+Proof.
+  induction ns as [|n nt IH]; intros i b axis rl Hb; cbn [embed take_pos] in *; [reflexivity|].
+  destruct (memb i axis).
+  - destruct b as [|c bt]; [simpl in Hb; discriminate|]. simpl. f_equal. apply IH; simpl in Hb; lia.
+  - simpl. f_equal. apply IH. exact Hb.
+Qed.
+
+(* dot(a, b, axis): the modes listed in axis are contracted with conj(b); value and positions of the dense contraction *)
+Theorem dot_axis_full (a b : tt R) axis idx' :
+  wf a -> wf b -> length b = length (take_pos 0 (shape a) axis) ->
+  (0 < length (keep_pos 0 (shape a) axis))%nat -> length idx' = length (keep_pos 0 (shape a) axis) ->
+  entry (dot_axis a b axis) idx' =
+    dsum_rec 0 (shape a) axis (fun idx => entry a idx * rconj (entry b (take_pos 0 idx axis))) idx'.
+Proof.
+  intros Ha Hb Hlb Hk Hl. unfold dot_axis.
+  set (E := embed 0 (shape a) b axis 1).
+  assert (HlE : length E = length a) by (unfold E; rewrite embed_length by assumption; apply map_length).
+  assert (HwE : wf E).
+  { split.
+    - intros H0. rewrite H0 in HlE. destruct Ha as [Hn _]. destruct a; [congruence|discriminate].
+    - destruct (embed_chained (shape a) 0 b axis 1 (proj2 Hb) Hlb) as [H _]. rewrite app_nil_r in H. exact H. }
+  assert (Hsh : shape (mul a E) = shape a) by (apply mul_shape; assumption).
+  rewrite sum_modes_full by (rewrite Hsh; assumption). rewrite Hsh.
+  (* pointwise under the reduction *)
+  assert (Hext : forall ns i f g idx0, (forall t, length t = length ns -> f t = g t) -> dsum_rec i ns axis f idx0 = dsum_rec i ns axis g idx0).
+  { induction ns as [|n nt IHn]; intros i f g idx0 H; cbn [dsum_rec]; [apply H; reflexivity|].
+    destruct (memb i axis).
+    - apply sum_n_ext. intros k _. apply IHn. intros t Ht. apply H. simpl. lia.
+    - destruct idx0 as [|k kt]; [reflexivity|]. apply IHn. intros t Ht. apply H. simpl. lia. }
+  apply Hext. intros t Ht. unfold shape in Ht. rewrite map_length in Ht.
+  rewrite mul_full by (auto; lia). f_equal.
+  unfold entry, E. rewrite embed_chain; auto; try lia.
+  - apply chainM_conj.
+  - unfold shape. rewrite map_length. exact Ht.
+  - exact (proj2 Hb).
+Qed.
+End DotAxisP.
